@@ -23,7 +23,9 @@ if os.path.realpath(REPO) != "/repo" or os.environ.get("VERIF_FORCE_PATH"):
 
 warnings.simplefilter("ignore")
 
-FIELDS = ("_generated", "_source", "n", "s")
+# the record type has fields whose names differ only in case, with capitals and digits: field names are case sensitive
+DATA_FIELDS = [("string", "s"), ("varint", "n"), ("string", "userName"), ("string", "username"), ("varint", "EventID"), ("varint", "eventid"), ("string", "Field9")]
+FIELDS = ("_generated", "_source", "_classification", "n", "s", "userName", "username", "EventID", "eventid", "Field9")
 
 
 class _Boom(Exception):
@@ -60,11 +62,12 @@ def main():
 
     g1 = _dt.datetime(2022, 2, 2, 2, 2, 2, tzinfo=_dt.timezone.utc)
     g2 = _dt.datetime(2011, 1, 1, 1, 1, 1, tzinfo=_dt.timezone.utc)
-    d = RecordDescriptor("c12/envscope", [("string", "s"), ("varint", "n")])
-    a = d(s="x", n=1, _generated=g1, _source="A")
-    others = {"_generated": d(s="x", n=1, _generated=g2, _source="A"), "_source": d(s="x", n=1, _generated=g1, _source="B"),
-              "n": d(s="x", n=2, _generated=g1, _source="A"), "s": d(s="y", n=1, _generated=g1, _source="A")}
-    same = d(s="x", n=1, _generated=g1, _source="A")
+    d = RecordDescriptor("c12/envscope", DATA_FIELDS)
+    basevals = {"s": "x", "n": 1, "userName": "u", "username": "u", "EventID": 4624, "eventid": 4624, "Field9": "f", "_generated": g1, "_source": "A", "_classification": "C"}
+    alt = {"s": "y", "n": 2, "userName": "v", "username": "v", "EventID": 4625, "eventid": 4625, "Field9": "g", "_generated": g2, "_source": "B", "_classification": "D"}
+    a = d(**basevals)
+    others = {f: d(**dict(basevals, **{f: alt[f]})) for f in FIELDS}
+    same = d(**basevals)
     probes = []
     turn = [0]
 
